@@ -76,6 +76,7 @@ def run_vgroup(name, repo, scratch, rlimit):
     res['cmd'] = r['cmd'].replace(scratch, '<scratch>')
     per_unit, hard = vrun.classify(r, linemap)
     res['meta'] = g.unit_meta
+    res['gaps'] = g.gaps
     res['stubs'] = [t for (a, b, k, u, t) in linemap if k == 'stub']
     res['canaries'] = len(g.canaries)
     j = r['json']
@@ -149,7 +150,7 @@ def main():
         with cf.ThreadPoolExecutor(max_workers=6) as ex:
             futs = [ex.submit(run_vgroup, g, a.repo, scratch, rl) for g in cfg.get('vgroups', [])]
             kfut = None
-            kunits = cfg.get('kunits', [])
+            kunits = cfg.get('kunits', []) if tier == 'thorough' else cfg.get('kunits_quick', cfg.get('kunits', []))
             if a.units:
                 kunits = [u for u in kunits if u in a.units.split(',')]
             if krun is not None and kunits:
@@ -183,6 +184,8 @@ def finish(pid, cfg, tier, seed, vres, kres, known, t0, scratch):
         for u in r['undecided']:
             undecided.append('[verus:%s] %s' % (r['group'], u))
         meta = r.get('meta', {})
+        for gp in r.get('gaps', []):
+            assumptions.add('composition gap: ' + gp)
         for st in r.get('stubs', []):
             assumptions.add('assumed callee contract (R5, external_body): ' + st)
         for unit, m in meta.items():
